@@ -158,14 +158,16 @@ def matchArm (vs : List (PatName × Nat)) (st : MState) (h : ArmHead) : Except M
     match vs.find? (fun v => patNameEq v.1 n) with
     | none => .error .unknownVariant
     | some (_, nf) =>
+      -- an arm for a variant that an earlier unguarded arm covers is unreachable
+      -- (an error iff the source says so; the unchanged tree only printed a
+      -- warning); this is decided before the pattern's binders are looked at
+      if C07Facts.matchDuplicateVariantIsError && patIn n st.used then .error .unreachableDuplicate else
       match arityCheck nf bs with
       | .error e => .error e
       | .ok () =>
-        -- a guarded arm does not mark its variant as used; a repeated variant
-        -- only prints a warning
+        -- a guarded arm does not mark its variant as used
         if h.guarded then .ok st
-        else if patIn n st.used then
-          (if C07Facts.matchDuplicateVariantIsError then .error .unreachableDuplicate else .ok st)
+        else if patIn n st.used then .ok st
         else .ok { st with used := st.used ++ [n] }
 
 def matchLoop (vs : List (PatName × Nat)) : MState → List ArmHead → Except MatchErr MState
